@@ -184,6 +184,8 @@ def attribute(job, ob):
         return {"C17"}
     if kind == "kind":
         return {"C03"}
+    if kind == "repoll":
+        return ({"C05"} & props) or props
     if kind in ("release",):
         out |= {"C04", "C18"} & props
         return out or {"C04"}
